@@ -33,7 +33,7 @@ func (t *ReadBuffers) Receive(bs []byte) ([]byte, bool, error) {
 		t.ReadBuffer[seqNum] = &ReadBuffer{
 			SegCount: 0,
 			MsgSize:  0,
-			Msgs:     make([][]byte, maxSegIdx+1),
+			Msgs:     make([][]byte, int(maxSegIdx)+1),
 		}
 		buf = t.ReadBuffer[seqNum]
 	}
